@@ -91,14 +91,17 @@ def perm_check(ctx, stream, sets):
     out = ctx.out
     reqs = []
     for names, ranks in sets:
-        items = [{"name": n, "rank": r, "id": str(i)} for i, (n, r) in enumerate(zip(names, ranks))]
+        # a rank of None = a scaffold that was NEVER ranked: built as plain `Scaffold(name)`, the way the parsers and the FASTA indexer build theirs
+        # (the model's structure default, rank 0, is what the source's constructor default must agree with)
+        items = [{"name": n, "rank": 0 if r is None else r, "id": str(i)} for i, (n, r) in enumerate(zip(names, ranks))]
         reqs.append({"id": 0, "kind": "sort", "items": items, "smart": True})
     model = ctx.driver.batch(reqs) if ctx.driver else [None] * len(reqs)
     for (names, ranks), m in zip(sets, model):
         inp = {"names": names, "ranks": ranks}
         scs = []
         for i, (n, r) in enumerate(zip(names, ranks)):
-            s = Scaffold(n, rank=r); s.original_name = str(i); scs.append(s)
+            s = Scaffold(n) if r is None else Scaffold(n, rank=r)
+            s.original_name = str(i); scs.append(s)
         try:
             asm = Assembly("x", scaffolds=list(scs)); asm.smart_sort_scaffolds()
             real = {"ok": [s.original_name for s in asm.scaffolds]}
@@ -157,7 +160,7 @@ def run(ctx):
         k = rng.randint(1, 5)
         ns = [rng.choice(pool) if rng.random() < 0.7 else rand_name(rng) for _ in range(k)]
         ns = [n for n in ns]
-        sets.append((ns, [rng.choice([1, 1, 2, 3]) for _ in ns]))
+        sets.append((ns, [rng.choice([1, 1, 2, 3]) if rng.random() < 0.75 else None for _ in ns]))
     perm_check(ctx, "sort-permutations", sets)
     object_histories(ctx, 1500 if ctx.thorough else 250)
     unicode_names(ctx, 4000 if ctx.thorough else 600)
@@ -268,6 +271,9 @@ def search(ctx, broken):
         names = ["".join(t) for n in range(0, 6) for t in itertools.product(ALPHA, repeat=n)]
         check_names(ctx, "search-names", names)
         order_oracles(ctx, "search-order", ctx.rng, 3000)
+        pool = ["SUPER_1", "SUPER_2", "SUPER_10", "scaffold_7", "H_1", "I", "IV", "a1", ""]
+        perm_check(ctx, "search-sort", [([ctx.rng.choice(pool) for _ in range(k)], [ctx.rng.choice([None, 0, 1, 2, 3]) for _ in range(k)])
+                                        for k in (1, 2, 2, 3, 3, 4) for _ in range(60)])
     finally:
         ctx.driver = saved
     new = [f for f in ctx.out.oracle_failures[n0:] if not f.get("finding")]
